@@ -210,7 +210,14 @@ class Cell:
     def __getstate__(self):
         """Return state of the Cell with connections set to empty."""
         # fixme, once we shift to 3.11, replace this with super. __getstate__
-        state = (self.__dict__, {k: getattr(self, k) for k in self.__slots__})
+        # the cached `neighborhood` collection is left out as well: it refers to the neighboring cells,
+        # whose cached neighborhoods refer to theirs, ... which makes pickle/deepcopy recurse once per cell
+        # (RecursionError on larger spaces); it is rebuilt on first use
+        attributes = {k: v for k, v in self.__dict__.items() if k != "neighborhood"}
+        state = (
+            attributes,
+            {k: getattr(self, k) for k in self.__slots__ if k != "__dict__"},
+        )
         state[1][
             "connections"
         ] = {}  # replace this with empty connections to avoid infinite recursion error in pickle/deepcopy
